@@ -389,6 +389,16 @@ func (V *Verifier) checkProperty(prop string, verbose bool, t0 time.Time) int {
 	}
 	// bounded stand-ins: conformance tests of assumed contracts (labelled bounded, never counted as proved)
 	var bounded []map[string]interface{}
+	if V.tier == "thorough" && mathModelProps[prop] {
+		res := V.runMathModelConformance()
+		bounded = append(bounded, res)
+		if res["result"] != "pass" {
+			o := &Oblig{Name: "cosmossdk.io/math#extern-model-conformance", Fn: "extern models", Kind: "bounded", Status: "failed", Detail: fmt.Sprint(res["output"]), Clause: "the prelude definitions of the LegacyDec/Int operations agree with the library on the conformance grid"}
+			dir := V.writeReplay(prop, o)
+			fmt.Printf("BROKEN property=%s replay=%s the extern model of cosmossdk.io/math disagrees with the library: nothing proved with it can be trusted\n", prop, dir)
+			rc = 2
+		}
+	}
 	for _, bc := range boundedChecks[prop] {
 		res := V.runBounded(bc)
 		bounded = append(bounded, res)
@@ -528,6 +538,75 @@ func (V *Verifier) runBounded(bc BoundedCheck) map[string]interface{} {
 		}
 	} else {
 		out["result"] = "fail"
+	}
+	return out
+}
+
+
+// properties whose obligations use the LegacyDec / Int extern models
+var mathModelProps = map[string]bool{"C01": true, "C02": true, "C03": true, "C04": true, "C05": true, "C06": true, "C09": true, "C11": true, "C13": true}
+
+// runMathModelConformance: evaluates the real cosmossdk.io/math on a grid (test injected with -overlay), then lets the
+// solver evaluate the prelude definitions on the same operands; any disagreement fails. BOUNDED: the grid of the test.
+func (V *Verifier) runMathModelConformance() map[string]interface{} {
+	out := map[string]interface{}{"name": "cosmossdk.io/math extern models", "label": "bounded",
+		"bound": "BOUNDED: 42 edge operands (0, +-1, halves, S-1, S, S+1, 30-digit values ...) for unary and all ordered pairs for binary operations",
+		"what": "prelude functions decMul, decMulTrunc, decQuo, decQuoTrunc, decCeil, decTruncInt, tdiv versus LegacyDec.Mul, MulTruncate, Quo, QuoTruncate, Ceil, TruncateInt, Int.Quo"}
+	dir, err := os.MkdirTemp("/var/tmp", "govc-mathconf-")
+	if err != nil {
+		out["result"], out["output"] = "error", err.Error()
+		return out
+	}
+	defer os.RemoveAll(dir)
+	repl := map[string]string{filepath.Join(V.repo, "x/fundraising/types/zz_conformance_math_model_test.go"): "/verif/conformance/math_model_conformance_test.go"}
+	ov, _ := json.Marshal(map[string]interface{}{"Replace": repl})
+	ovf := filepath.Join(dir, "overlay.json")
+	os.WriteFile(ovf, ov, 0o644)
+	cmd := exec.Command("go", "test", "-overlay", ovf, "-vet=off", "-count=1", "-timeout", "300s", "-run", "TestZZConformanceMathModel", "-v", "./x/fundraising/types")
+	cmd.Dir = V.repo
+	cmd.Env = append(os.Environ(), "GOFLAGS=-mod=mod", "GOPROXY=off", "GOSUMDB=off", "GOTOOLCHAIN=local")
+	b, err := cmd.CombinedOutput()
+	if err != nil {
+		out["result"], out["output"] = "error", string(b)
+		return out
+	}
+	lit := func(s string) string {
+		if strings.HasPrefix(s, "-") {
+			return "(- " + s[1:] + ")"
+		}
+		return s
+	}
+	var q strings.Builder
+	for _, l := range strings.Split(prelude, "\n") {
+		if strings.HasPrefix(l, "(define-fun ") || strings.HasPrefix(l, "(declare-sort ") {
+			q.WriteString(l + "\n")
+		}
+	}
+	n := 0
+	q.WriteString("(assert (or false\n")
+	for _, ln := range strings.Split(string(b), "\n") {
+		f := strings.Fields(ln)
+		if len(f) < 4 || f[0] != "CASE" {
+			continue
+		}
+		args := f[2 : len(f)-1]
+		var as []string
+		for _, a := range args {
+			as = append(as, lit(a))
+		}
+		fmt.Fprintf(&q, " (distinct (%s %s) %s)\n", f[1], strings.Join(as, " "), lit(f[len(f)-1]))
+		n++
+	}
+	q.WriteString("))\n(check-sat)\n")
+	qf := filepath.Join(dir, "mathconf.smt2")
+	os.WriteFile(qf, []byte(q.String()), 0o644)
+	so, _ := exec.Command("z3-new", "-T:120", qf).CombinedOutput()
+	out["cases"] = n
+	first := strings.TrimSpace(strings.SplitN(string(so), "\n", 2)[0])
+	if first == "unsat" && n > 1000 {
+		out["result"] = "pass"
+	} else {
+		out["result"], out["output"] = "fail", "solver: "+first
 	}
 	return out
 }
